@@ -3,6 +3,7 @@ set_and_wait / clear_or_wait / deferred set_wait_location / done_fiber in src/fi
 import os
 
 from specs import sched_env, n_cases
+import vlib
 
 # "Join" = the code in /repo; "JoinCas" = the candidate fix docs/fix-C04.diff (only together
 # with VERIF_REPO=<tree with the fix applied>)
